@@ -177,7 +177,15 @@ func (t *State) SetTimerTaskMG(timerTaskMgr timerTask.TimerManager) {
 
 // 选择足够金额的utxo
 func (t *State) SelectUtxos(fromAddr string, totalNeed *big.Int, needLock, excludeUnconfirmed bool) ([]*protos.TxInput, [][]byte, *big.Int, error) {
+	// a block play rolls conflicting pending transactions back before it applies the block: without the
+	// lock a selection could be handed outputs that are only unspent in the middle of that play
+	t.rlockUtxoForSelect()
+	defer t.utxo.Mutex.RUnlock()
 	return t.utxo.SelectUtxos(fromAddr, totalNeed, needLock, excludeUnconfirmed)
+}
+
+func (t *State) rlockUtxoForSelect() {
+	t.utxo.Mutex.RLock()
 }
 
 // 获取一批未确认交易（用于矿工打包区块）
@@ -194,6 +202,8 @@ func (t *State) QueryUtxoRecord(accountName string, displayCount int64) (*pb.Utx
 }
 
 func (t *State) SelectUtxosBySize(fromAddr string, needLock, excludeUnconfirmed bool) ([]*protos.TxInput, [][]byte, *big.Int, error) {
+	t.rlockUtxoForSelect()
+	defer t.utxo.Mutex.RUnlock()
 	return t.utxo.SelectUtxosBySize(fromAddr, needLock, excludeUnconfirmed)
 }
 
